@@ -70,7 +70,7 @@ CHECKS.update({
 })
 
 CHECKS.update({
- "C07": ("proof", "PARTIAL. Proved on the model: within_limits_complete (valid calls never panic, unbounded histories), id_overrun_panics / label_overrun_panics / member_overrun_panics, computed_indices_in_range; and, at C07's own quantifier (EVERY call sequence, valid or not, with any number of panics in it), on the total model stepT (Core/Total.lean: the state a call leaves behind even when it panics, and what the code does without a free group slot; total_agrees: equal to step wherever step answers): any_sequence_keeps_indices_in_range (after any call sequence from empty both tables have 16 entries, every tag is below 16, every member and edge target below the capacity, no list longer than 16, no vertex with more than N edges), panics_exactly_at (a call panics exactly at an id >= capacity, an (N+1)-th label, a 17-th member, a first read with a zero counter, an exhausted allocator), put_data_panic_only_on_caller_ids, merge_keeps_indices_in_range (the program of merge interpreted over the total step, Core/TotalProg.lean: Ok, Err or a panic half-way all leave every computed index in range), script_keeps_indices_in_range (deploy_to: to the end, Err at a malformed command, or a panicking call), slice_keeps_indices_in_range (the returned graph). Not provable in a model: what the unsafe container code does to memory — examined by executing every operation file (valid, limit-violating, and continued after caught panics) on a harness built with AddressSanitizer; outcomes and observations must match the total model call by call, also on every call after a panic (soak mode), any sanitizer report or abort is a violation.",
+ "C07": ("proof", "PARTIAL. Proved on the model: within_limits_complete (valid calls never panic, unbounded histories), id_overrun_panics / label_overrun_panics / member_overrun_panics, computed_indices_in_range; and, at C07's own quantifier (EVERY call sequence, valid or not, with any number of panics in it), on the total model stepT (Core/Total.lean: the state a call leaves behind even when it panics, and what the code does without a free group slot; total_agrees: equal to step wherever step answers): any_sequence_keeps_indices_in_range (after any call sequence from empty both tables have 16 entries, every tag is below 16, every member and edge target below the capacity, no list longer than 16, no vertex with more than N edges), panics_exactly_at (a call panics exactly at an id >= capacity, an (N+1)-th label, a 17-th member, a first read with a zero counter, an exhausted allocator), put_data_panic_only_on_caller_ids, merge_keeps_indices_in_range (the program of merge interpreted over the total step, Core/TotalProg.lean: Ok, Err or a panic half-way all leave every computed index in range), script_keeps_indices_in_range (deploy_to: to the end, Err at a malformed command, or a panicking call), slice_keeps_indices_in_range (the returned graph); and with join() of merge.rs inside the model (Core/Holes.lean, Core/MergeHoles.lean: graphs with removed slots, stepX, mergeX = merge() in full on arbitrary graphs): without_removed_slots_same_step, any_sequence_with_joins_keeps_indices_in_range, merge_of_any_graphs_keeps_indices_in_range (trees or not, Ok, Err or a panic half-way, inside join or outside). Not provable in a model: what the unsafe container code does to memory — examined by executing every operation file (valid, limit-violating, and continued after caught panics) on a harness built with AddressSanitizer; outcomes and observations must match the total model call by call, also on every call after a panic (soak mode), any sanitizer report or abort is a violation.",
          "model-level theorems + AddressSanitizer-backed differential correspondence (partial)", "7 C07"),
 })
 
